@@ -6,6 +6,21 @@ import re
 
 import vlib
 
+PROPS = ["C01", "C09"]
+
+MANIFEST = {
+    "C01": dict(
+        technique="Lean 4 proof: inductive invariant over all schedules and stale loads (view semantics) + wrap-around refinement; extraction of memory orders; differential correspondence under an atomic shim",
+        text="Machine-checked proof (Lean 4) that in every state reachable by any interleaving and any legal stale atomic load, every enabled producer/consumer step of the bounded queue is safe (no torn/early/overwritten byte, records contiguous, FIFO exactly-once), for every capacity, batch threshold, publication policy and size sequence, and that the 2^w-modular arithmetic of the C++ refines the free-running model through any number of wraps. Tied to the code by (1) extracting the four memory orders from the header and re-proving OrdersOK for them, (2) running the real BoundedSPSCQueueImpl<uint8_t|uint16_t|size_t> under an atomic shim with the same schedules as the Lean model and diffing every observation, (3) a happens-before race detector and payload/FIFO oracle on the real code.",
+        note="Assumes the store-history view semantics renders C++11 release/acquire for single-writer atomics; QUILL_X86ARCH cache-flush intrinsics not modelled.",
+        ref="§5 C01, Appendix A.1"),
+    "C09": dict(
+        technique="Lean 4 proof: progress lemma on the queue invariant (drained queue publishes, reload grants any n ≤ capacity); extraction of the drain rule; differential correspondence + drained-state probes on the real queue",
+        text="Machine-checked proof that in every reachable drained state commit_read publishes the reader position and a producer reload of the newest value is followed by a grant for every 0 < n ≤ capacity (so no stall on an empty queue), plus a proved counter-witness for the batching-only rule of the pinned tree (finding F3, repaired by a fix: commit). Tied to the code by extracting the drain rule from commit_read, by differential execution of the real queue against the model (every grant/deny and every publication compared) and by probing every drained state the generator reaches with boundary sizes. The end-to-end retry loop is covered by the backend checks.",
+        note="Queue level only in this check; 'finitely many polls' relies on the fairness assumption that a store eventually becomes visible to an acquire load.",
+        ref="§5 C09, §7 F3"),
+}
+
 THEOREMS = {
     "C01": ["Spsc.C01_reachable_safe", "Spsc.C01_fifo", "Spsc.C01_grant_fits", "Spsc.C01_wrap", "Spsc.wrap_refines",
             "Spsc.step_inv", "Spsc.step_safe", "Spsc.weak_wLoad_unsafe", "Spsc.weak_rLoad_unsafe",
@@ -91,7 +106,7 @@ def run(prop, tier):
                 orders_seen = t.split()[1:]
             if t.startswith("STATS"):
                 stats_lines.append(label + ": " + t)
-        rc, dout = vlib.driver(["spsc" if prop == "C09" else "spsc-anypub"], stdin_data=text.encode())
+        rc, dout = vlib.driver(["spsc", "trace" if prop == "C09" else "anypub"], stdin_data=text.encode())
         by_id = {tr[0].split()[1]: tr for tr in traces}
         for ln in dout.split("\n"):
             if ln.startswith("TRACE "):
@@ -154,7 +169,7 @@ def run(prop, tier):
         # search the model with the extracted parameters for an unsafe schedule and replay it on the real code
         found = False
         for cap, batch, depth in ((2, 0, 9), (4, 1, 8)):
-            rc, sout = vlib.driver(["spsc-search", str(cap), str(batch), "256"] + pargs + [str(depth)], timeout=600)
+            rc, sout = vlib.driver(["spsc", "search", str(cap), str(batch), "256"] + pargs + [str(depth)], timeout=600)
             if "UNSAFE-SCHEDULE" in sout:
                 sched = "\n".join(l for l in sout.split("\n") if not l.startswith("UNSAFE-SCHEDULE")) + "\n"
                 rp = ck.replay_path("model_schedule")
@@ -205,7 +220,7 @@ def replay(prop, path):
     ex = vlib.run_extract()
     rc, out = vlib.sh([hbin, "replay", path] + params_args(ex), env=vlib.ASAN_ENV)
     print(out)
-    rc2, dout = vlib.driver(["spsc"], stdin_data=out.encode())
+    rc2, dout = vlib.driver(["spsc", "trace" if prop == "C09" else "anypub"], stdin_data=out.encode())
     print(dout)
     bad = [l for l in out.split("\n") if l.startswith("ORACLE") and oracle_belongs(prop, l)]
     return 1 if bad or rc not in (0, 3) else 0
